@@ -28,7 +28,9 @@ pub fn op_lines(op: &Op) -> Vec<Vec<u8>> {
         }
         Op::ProbeSingle(i) => vec![format!("probe {i}").into_bytes()],
         Op::ProbeVec(ids) | Op::ProbeTuple(ids) => {
-            if ids.len() == 1 {
+            if ids.is_empty() {
+                vec![]
+            } else if ids.len() == 1 {
                 vec![format!("probe {}", ids[0]).into_bytes()]
             } else {
                 let mut v = vec![b"command_list_ok_begin".to_vec()];
